@@ -168,8 +168,10 @@ impl Script {
 
 impl Read for Script {
     fn read(&mut self, buf: &mut [u8]) -> io::Result<usize> {
+        let prev = crate::alloc::pause();
         let r = self.read_inner(buf);
         self.sync();
+        crate::alloc::resume(prev);
         r
     }
 }
@@ -233,13 +235,17 @@ impl Script {
 
 impl Write for Script {
     fn write(&mut self, buf: &[u8]) -> io::Result<usize> {
+        let prev = crate::alloc::pause();
         let r = self.write_inner(buf);
         self.sync();
+        crate::alloc::resume(prev);
         r
     }
     fn flush(&mut self) -> io::Result<()> {
+        let prev = crate::alloc::pause();
         let r = self.flush_inner();
         self.sync();
+        crate::alloc::resume(prev);
         r
     }
 }
